@@ -657,6 +657,13 @@ def retry_cases(rng):
     return cs
 
 
+def capacity_cases(rng, n):
+    """C05: tables at capacity with scoped and unscoped contributions from several transactions (a new scope of a name that is
+    already in the table counts against the limit like any other key -- seeded/C05f1)"""
+    stats = {}
+    return [gen_case_B(rng, i, stats) for i in range(n)]
+
+
 def run_table_cases(chk, tcases, tag, what):
     """run table cases against the real MetricTable and judge them in Coq (correspondence with Metrics.exec and
     the table monitors); used by the C02 check for the attempt bound of metric payloads"""
